@@ -148,6 +148,18 @@ func (e *enc) instr(b *ssa.BasicBlock, ins ssa.Instruction) {
 		n := e.havoc(i)
 		e.allocFresh(n)
 		el := i.Type().Underlying().(*types.Pointer).Elem()
+		if !i.Heap {
+			pa := privAlloc{ref: n, arrs: map[string]bool{}}
+			switch el.Underlying().(type) {
+			case *types.Struct:
+				structArrays(el, pa.arrs, 0)
+			case *types.Array:
+				pa.arrs[arrElems(el.Underlying().(*types.Array).Elem())] = true
+			default:
+				pa.arrs[arrCell(el)] = true
+			}
+			e.priv = append(e.priv, pa)
+		}
 		switch el.Underlying().(type) {
 		case *types.Struct:
 			e.locs[i] = loc{kind: "struct", ref: n, sort: "SV", t: el}
